@@ -163,6 +163,8 @@ def classify(i, status, detail) -> str:
             return "C06-default-list-of-objects"
         if base == "Blob" and "{" in lit:
             return "C06-default-custom-scalar-object"
+        if base == "ID" and re.search(r"(?<![\w\"])\d+(?![\w\"])", lit) and status == "mismatch":
+            return "C06-default-id-int-literal"
     return ""
 
 
